@@ -197,8 +197,9 @@ func ruleInheritWalk(c *eng.Ctx) {
 		ok := check(fn, 0)
 		via := ""
 		if !ok {
-			for _, ci := range eng.Calls(fn, false, func(string, ssa.CallInstruction) bool { return true }) {
-				if cal := ci.Common().StaticCallee(); cal != nil && eng.InModule(cal) && check(cal, 1) {
+			// the walk may sit in a helper, or in a helper of the helper (lookup -> recursive ancestor walk)
+			for _, cal := range eng.Cluster(fn, 3) {
+				if cal != fn && check(cal, 1) {
 					ok = true
 					via = " (through " + eng.FuncName(cal) + ")"
 				}
